@@ -173,6 +173,7 @@ func checkC15(c *Ctx) {
 						continue
 					}
 					res, _ := o.Ret[0].(*SliceV)
+				noteShared(c, p, ex, fn, o, res)
 					pay, _, why := metaFrameCheck(ex, o.St, res, ms.typ)
 					if why != "" {
 						okF = false
@@ -243,6 +244,7 @@ func checkC15(c *Ctx) {
 					continue
 				}
 				res, _ := o.Ret[0].(*SliceV)
+				noteShared(c, p, ex, fn, o, res)
 				pay, _, why := metaFrameCheck(ex, o.St, res, ms.typ)
 				if why != "" {
 					okF = false
@@ -302,6 +304,7 @@ func checkTempo(c *Ctx, p *Program, fn, g *ssa.Function, callGetter func(*Exec, 
 		}
 		n++
 		res, _ := o.Ret[0].(*SliceV)
+				noteShared(c, p, ex, fn, o, res)
 		pay, _, why := metaFrameCheck(ex, o.St, res, 0x51)
 		if why != "" {
 			okF = false
@@ -392,6 +395,7 @@ func checkTimeSig(c *Ctx, p *Program, name string, fn, g *ssa.Function, callGett
 				continue
 			}
 			res, _ := o.Ret[0].(*SliceV)
+				noteShared(c, p, ex, fn, o, res)
 			pay, _, w := metaFrameCheck(ex, o.St, res, 0x58)
 			if w != "" {
 				ok = false
@@ -481,6 +485,7 @@ func checkKeySig(c *Ctx, p *Program, fn, g *ssa.Function, callGetter func(*Exec,
 						continue
 					}
 					res, _ := o.Ret[0].(*SliceV)
+				noteShared(c, p, ex, fn, o, res)
 					pay, _, w := metaFrameCheck(ex, o.St, res, 0x59)
 					if w != "" {
 						ok = false
@@ -653,4 +658,19 @@ func checkNamedKeys(c *Ctx, p *Program, getKey *ssa.Function) {
 		c.Bad("C15.6", "named key constructors", "-", fmt.Sprintf("only %d named key constructors found, 26 expected", n))
 	}
 	_ = token.ADD
+}
+
+var sharedNoted = map[string]bool{}
+
+// noteShared: a meta constructor must return freshly allocated bytes (C15.1).
+func noteShared(c *Ctx, p *Program, ex *Exec, fn *ssa.Function, o Outcome, res *SliceV) {
+	if o.Panic || res == nil || ex.freshSlice(o, res) {
+		return
+	}
+	key := "constructor " + fn.Name() + " returns a fresh message"
+	if sharedNoted[c.Prop+key] {
+		return
+	}
+	sharedNoted[c.Prop+key] = true
+	c.Bad("C15.1", key, p.Pos(fn.Pos()), "the returned message shares storage that outlives the call (a package-level template or buffer): a message built earlier changes when the next one is built")
 }
